@@ -15,7 +15,7 @@ def describe(tier):
         rule="case system with depth-2 follow-ups: both CPU buffer kinds x capacity 0..%d x every (offset, length) inside it x every copying primitive "
         "(update_from_buffer with bytes / bytearray / memoryview / ndarray.data of 1-, 2- and 8-byte dtypes; update_from_native; copy_to_native; to_native; "
         "to_bytearray; to_pointer_arg; to_nplike / to_nparray; update_from_nplike with C / F / strided / reversed / non-native byte order sources with and without dtype conversion; "
-        "update_from_xbuffer same context same kind / same context other kind / other context; scalar and scalar-array helpers for the 10 dtypes) against a "
+        "update_from_xbuffer same context same kind / same context other kind / other context; the copy into fresh storage made by grow() / a growing allocate() from four allocator states (every byte of the old storage must travel); scalar and scalar-array helpers for the 10 dtypes) against a "
         "bytearray model on a poisoned background: exactly the requested bytes at the requested offsets, every other byte identical, capacity unchanged; "
         "then the source / the result is mutated: extracted copies stay equal, typed views follow the buffer and vice versa." % (10 if tier == "quick" else 20),
         bounds=dict(capacities="0..%d" % (10 if tier == "quick" else 20), dtypes=DTYPES, layouts=["C", "F", "strided", "reversed", "converted", "byteswapped"]),
@@ -314,6 +314,39 @@ def run_shard(shard, tier, seed):
                                 c.bad("scalar-array", "wrong-values", "", **feat)
                             else:
                                 c.ok("scalar-array")
+    # ---- the copy into fresh native storage made by a growth: ALL bytes of the old storage travel (callers may write at offsets
+    # they chose themselves), whatever the allocator knows about them
+    for pre in ("nothing-allocated", "half-allocated", "all-allocated", "hole"):
+        for how, g in (("grow", 1), ("grow", 8), ("grow", cap + 3), ("allocate", cap + 1), ("allocate", max(cap, 1))):
+            b, m = mk(kind, cap, salt + 5)
+            feat = dict(offset=0, nbytes=cap, layout=pre, source="%s(%d)" % (how, g))
+            try:
+                if pre == "half-allocated" and cap:
+                    b.allocate(cap // 2, align=False)
+                elif pre == "all-allocated" and cap:
+                    b.allocate(cap, align=False)
+                elif pre == "hole" and cap >= 2:
+                    o1 = b.allocate(cap // 2, align=False)
+                    b.allocate(cap - cap // 2, align=False)
+                    b.free(o1, cap // 2)
+            except Exception as e:
+                res.skipped["allocator(C04's business):" + common.exc_failure(e)] += 1
+                continue
+            if raw(b)[:cap] != bytes(m):
+                res.skipped["allocator-touched-bytes(C04's business)"] += 1
+                continue
+            okc, _ = call(c, "grow-copy", feat, (lambda: b.grow(g)) if how == "grow" else (lambda: b.allocate(g, align=False)))
+            n_cases += 1
+            if not okc:
+                continue
+            got = raw(b)
+            if b.capacity < cap or len(got) != b.capacity:
+                c.bad("grow-copy", "capacity-changed", "capacity %d, storage %d bytes after %s from %d" % (b.capacity, len(got), feat["source"], cap), **feat)
+            elif got[:cap] != bytes(m):
+                idx = [i for i in range(cap) if got[i] != m[i]]
+                c.bad("grow-copy", "wrong-bytes", "bytes of the old storage not carried over at %r" % (idx[:8],), **feat)
+            else:
+                c.ok("grow-copy")
     res.cases = n_cases
     res.states = res.nontrivial = n_cases
     res.max_depth = 2
